@@ -106,7 +106,7 @@ PROPERTIES = {
     },
     "C13": {
         "title": "Connection IDs are issued, routed and retired consistently",
-        "steps": [tx("txmc_cid", "verif_txmc_cid", expect=4), net("C13")],
+        "steps": [tx("txmc_cid", "verif_txmc_cid", expect=5), net("C13")],
         "technique": "explicit-state BFS over the real LocalIdRegistry / PeerIdRegistry / ConnectionIdMapper joined by a bag of in-flight frames",
         "level_text": "The real issuer (LocalIdRegistry in a real ConnectionIdMapper that also holds a second connection) and the real consumer (PeerIdRegistry) are driven through every operation sequence up to depth 10 (quick) / 13 (thorough) over 13 operations (register with/without expiry, set peer limit, transmit, deliver/lose/ack NEW_CONNECTION_ID and RETIRE_CONNECTION_ID frames as encoded bytes through the real codec, consume id for migration, timer expiry) from 48 setup roots, de-duplicated on the registries' Debug rendering; invariants after every step: unretired ids <= peer limit (RFC 9000 5.1.1 MAY for ids being retired by the same frame), consecutive sequence numbers, pairwise distinct ids and reset tokens, retire_prior_to <= sequence number, routing of every id the peer may still use to the issuing connection, peer retires only issued ids and never the destination id of the carrying packet. A second family feeds adversarial NEW_CONNECTION_ID sequences to the peer registry at every reachable state. netmc migrate family (real TLS): client address rebinding, loss and reordering at every datagram index after the handshake, peer limits 2/3/4, and connection-id expiry at the stock 60 s minimum lifetime over a 160 s keep-alive run; monitor CID on the clear-text frames: consecutive sequence numbers, distinct ids and reset tokens, retire_prior_to <= sequence number, unretired ids <= peer limit, only issued ids retired, RETIRE_CONNECTION_ID never in a packet addressed with the retired id (short-header destination ids are readable), no genuine datagram answered with a stateless reset or dropped as unroutable while the connection lives; plus the DATA and completion oracles.",
         "level_note": "Two further txmc families put the real server-role path::Manager with its real PeerIdRegistry in the loop (datagrams from 2-3 addresses, path validation, NEW_CONNECTION_ID with retire_prior_to unchanged / +1 / = seq, transmit, loss/ack of RETIRE frames, validation timer; depth 8 quick, 9-10 thorough): RETIRE never in a packet addressed with the retired id, the active path never uses a retired id while a replacement exists, only issued ids retired, honest input never errors. One listed known finding (fallback to the last validated path after a failed validation resumes a retired id). In c13.cid the path::Manager / ApplicationSpace glue is transcribed (sources named in engines/txmc/cid.rs); constant id lifetimes; the issuer is never starved for >= 10 s. Routing clause covers the RFC MUST only (until the issuer has put a Retire Prior To above the id on the wire). Mounted into the crate's unit-test build by hook H1.",
